@@ -92,7 +92,7 @@ def others_unchanged(name):
 def cow_contract(qual, name, keyp, valp, props):
     contract(qual, props=props,
              params={'cls': 'symclass'},
-             requires=[lattice(name)],
+             requires=[lattice(name), 'hashable(%s)' % keyp],
              ensures=[view_update(name, keyp, valp), lattice(name), others_unchanged(name),
                       lambda cx: z3.Select(cx.ex.harr(cx.st, 'own:' + name), rv(cx.old.env['cls'].t))],
              labels={0: 'view-of-every-class', 1: 'inv_tables-preserved', 2: 'other-classes-untouched', 3: 'cls-owns-its-table'},
